@@ -32,7 +32,7 @@ def main():
         })
     man = {
         "version": 1,
-        "setup_cmd": "cd lean && lake build GridVerif driver 2>&1 | tail -5",
+        "setup_cmd": "./check setup",
         "hooks": {
             "guard": "GRID_VERIF_HOOKS",
             "enable": "no hooks are needed: checks import grid from /repo/src as it is (editable install in /venv)",
